@@ -65,7 +65,7 @@ pub fn call_entry(entry: &str, input: &[u8]) -> Result<String, String> {
                 let _ = m.mnemonic_length();
                 let _ = m.to_string();
                 // seed only for short passwords to keep the cost bounded
-                let _ = m.seed(&text[..text.len().min(8).min(text.char_indices().nth(8).map(|x| x.0).unwrap_or(text.len()))]);
+                let _ = m.seed(text.chars().take(8).collect::<String>());
                 format!("ok:{}", p.len())
             }
             Err(_) => "err".into(),
